@@ -938,46 +938,73 @@ def rule_empty_files_do_not_overlap(prog, fixture=False):
                    "test only where its length is known to be non-zero - an empty file has a start sector but "
                    "occupies nothing, and a well-formed disc on which a file follows an empty one at the same "
                    "sector must not be rejected (none of its files could then be read)", floor=0 if fixture else 1)
+    LOOPS = ("ForStmt", "WhileStmt", "DoStmt", "CXXForRangeStmt")
+
+    def mentions_call(fn, e, name, depth=0):
+        for x in walk(e):
+            if x.get("k") == "CXXMemberCallExpr" and (strip(x["c"][0]) or {}).get("n") == name:
+                return True
+            if depth < 3 and x.get("k") == "DeclRefExpr" and x.get("dk") == "Var":
+                for v in fn.walk():
+                    if v.get("k") == "VarDecl" and v.get("d") == x["d"] and v.get("c") and mentions_call(fn, v["c"][0], name, depth + 1):
+                        return True
+        return False
     for fn in prog.functions.values():
-        # loop-carried variables assigned from  X.start_sector()  and compared with  X.last_sector()
-        for n in fn.walk():
-            tgt = rhs = None
-            if n.get("k") == "CXXOperatorCallExpr" and n.get("op") == "=" and len(n.get("c", [])) == 3:
-                tgt, rhs = strip_all(n["c"][1]), n["c"][2]
-            elif n.get("k") == "BinaryOperator" and n.get("op") == "=":
-                tgt, rhs = strip_all(n["c"][0]), n["c"][1]
-            if tgt is None or tgt.get("k") != "DeclRefExpr" or tgt.get("dk") != "Var":
+        for lp in fn.walk():
+            if lp.get("k") not in LOOPS or "body" not in lp.get("parts", {}):
                 continue
-            src = [x for x in walk(rhs) if x.get("k") == "CXXMemberCallExpr" and (strip(x["c"][0]) or {}).get("n") == "start_sector"]
-            if not src:
-                continue
-            if not any(a.get("k") in ("ForStmt", "WhileStmt", "DoStmt", "CXXForRangeStmt") for a in fn.ancestors(n)):
-                continue
-            used = any(x.get("k") in ("BinaryOperator", "CXXOperatorCallExpr") and x.get("op") in (">=", ">", "<", "<=") and
-                       any(y.get("k") == "DeclRefExpr" and y.get("d") == tgt["d"] for y in walk(x)) and
-                       any(y.get("k") == "CXXMemberCallExpr" and (strip(y["c"][0]) or {}).get("n") == "last_sector" for y in walk(x))
-                       for x in fn.walk())
-            if not used:
-                continue
-            obj = strip_all((strip(src[0]["c"][0]) or {}).get("c", [None])[0])
-            g = Guards(fn)
-            ok = False
-            for l, rel, rr in (g.cmps(n) or []):
-                for a, b in ((l, rr), (rr, l)):
-                    ca = strip_all(a)
-                    if ca is not None and ca.get("k") == "CXXMemberCallExpr" and (strip(ca["c"][0]) or {}).get("n") == "file_length" and \
-                            folded(b) == 0 and rel in ("!=", ">", "<"):
-                        o2 = strip_all((strip(ca["c"][0]) or {}).get("c", [None])[0])
-                        if obj is not None and o2 is not None and o2.get("d") == obj.get("d"):
+            body = lp["c"][lp["parts"]["body"]]
+            in_body = {id(x) for x in walk(body)}
+            decl_in = {x["d"] for x in walk(lp) if x.get("k") == "VarDecl"}
+            # carried variables: declared outside the loop, assigned inside it
+            assigns = {}
+            for x in walk(body):
+                tgt = rhs = None
+                if x.get("k") == "CXXOperatorCallExpr" and x.get("op") == "=" and len(x.get("c", [])) == 3:
+                    tgt, rhs = strip_all(x["c"][1]), x["c"][2]
+                elif x.get("k") == "BinaryOperator" and x.get("op") == "=":
+                    tgt, rhs = strip_all(x["c"][0]), x["c"][1]
+                if tgt is not None and tgt.get("k") == "DeclRefExpr" and tgt.get("dk") == "Var" and tgt["d"] not in decl_in:
+                    assigns.setdefault(tgt["d"], []).append((x, tgt, rhs))
+            for d, sites in assigns.items():
+                # is it the memory of the overlap test?  compared (itself or its start_sector()) with a last_sector()
+                used = False
+                for x in walk(body):
+                    if x.get("k") in ("BinaryOperator", "CXXOperatorCallExpr") and x.get("op") in (">=", ">", "<", "<="):
+                        ops = x["c"][-2:]
+                        for a, b in ((ops[0], ops[1]), (ops[1], ops[0])):
+                            if mentions_call(fn, a, "last_sector") and any(y.get("k") == "DeclRefExpr" and y.get("d") == d for y in walk(b)):
+                                used = True
+                if not used:
+                    continue
+                g = Guards(fn)
+                for n, tgt, rhs in sites:
+                    # the entry being remembered: the object whose start_sector()/address/value is stored
+                    objs = [y for y in walk(rhs) if y.get("k") == "DeclRefExpr" and y.get("dk") == "Var" and
+                            ("CatalogEntry" in (y.get("t") or y.get("ct") or "") or "Entry" in (y.get("t") or y.get("ct") or ""))]
+                    if folded(rhs) == 0 or (strip_all(rhs) or {}).get("k") == "CXXNullPtrLiteralExpr":
+                        continue
+                    key = "%s::%s::%s=" % (fn.relfile(), fn.qn, tgt.get("n"))
+                    if not objs:
+                        r.undecided.append("%s: cannot tell which entry `%s` remembers" % (fn.loc(n), show(n)[:50]))
+                        continue
+                    od = objs[0]["d"]
+                    ok = False
+                    for l, rel, rr in (g.cmps(n) or []):
+                        for a, b in ((l, rr), (rr, l)):
+                            ca = strip_all(a)
+                            if ca is not None and ca.get("k") == "CXXMemberCallExpr" and (strip(ca["c"][0]) or {}).get("n") == "file_length" and \
+                                    folded(b) == 0 and rel in ("!=", ">", "<") and \
+                                    any(y.get("k") == "DeclRefExpr" and y.get("d") == od for y in walk(ca)):
+                                ok = True
+                    for a, truth in (g.truths(n) or []):
+                        ca = strip_all(a)
+                        if truth and ca is not None and ca.get("k") == "CXXMemberCallExpr" and (strip(ca["c"][0]) or {}).get("n") == "file_length" \
+                                and any(y.get("k") == "DeclRefExpr" and y.get("d") == od for y in walk(ca)):
                             ok = True
-            for a, truth in (g.truths(n) or []):
-                ca = strip_all(a)
-                if truth and ca is not None and ca.get("k") == "CXXMemberCallExpr" and (strip(ca["c"][0]) or {}).get("n") == "file_length":
-                    ok = True
-            key = "%s::%s::%s=start_sector" % (fn.relfile(), fn.qn, tgt.get("n"))
-            r.add(key, fn.loc(n), ok, "only entries of non-zero length are remembered" if ok else
-                  "`%s` is updated from an entry whose length may be zero: the next entry is then tested for overlap with "
-                  "a file that occupies no sector, and a valid disc is refused" % tgt.get("n"))
+                    r.add(key, fn.loc(n), ok, "only entries of non-zero length are remembered" if ok else
+                          "`%s` is updated from an entry whose length may be zero: the next entry is then tested for overlap with "
+                          "a file that occupies no sector, and a valid disc is refused" % tgt.get("n"))
     return r
 
 
@@ -990,7 +1017,7 @@ def run(ctx):
 
 
 SELFTESTS = [
-    (rule_empty_files_do_not_overlap, ["c01_ovl_bad.cc"], ["c01_ovl_good.cc"], "start_sector"),
+    (rule_empty_files_do_not_overlap, ["c01_ovl_bad.cc"], ["c01_ovl_good.cc"], "last_file_start="),
     (lambda p, fixture=True: c02.rule_entry_fields(p, fixture=True, only=["start_sector", "file_length"], rule_id="R-C01-1"),
      ["c02_bad.cc"], ["c02_good.cc"], "file_length"),
     (rule_walk_accounting, ["c01_bad.cc"], ["c01_good.cc"], "amount"),
